@@ -145,11 +145,16 @@ def gen_case(rnd):
     vkind = 'none'
     V = None
     if vr < 0.35:
-        vkind = rnd.choice(['spd', 'rank1', 'zero', 'diag', 'cond1e8'])
+        vkind = rnd.choice(['spd', 'rank1', 'rank2', 'zero', 'diag', 'cond1e8', 'bigrank', 'tiny', 'range', 'tied'])
         V = c06.rand_vcv(rnd, vkind).tolist()
     elif vr < 0.5:
         vkind = 'column'
         V = [[rnd.uniform(0, 1e-4)], [rnd.uniform(0, 1e-4)], [rnd.uniform(0, 1e-3)]]
+        if rnd.random() < 0.3:
+            # a variance column with a wide range: unconstrained height, or horizontals of a bench mark
+            V[rnd.randrange(3)][0] = 10.0 ** rnd.uniform(1.4, 6)
+        elif rnd.random() < 0.15:
+            V = [[v[0] * 10.0 ** rnd.choice([-12, -9, 6, 12])] for v in V]
     case = {'zone': zone, 'east': e, 'north': n, 'h': h, 'vcv': V, 'vkind': vkind, 'edge': edge,
             'direction': rnd.choice(['94->2020', '2020->94'])}
     # how the same call is delivered: numbers as int / numpy scalars / a float subclass (whole metres for the integer kinds:
